@@ -499,7 +499,7 @@ def parent_main(pid, tier, seed):
         cmd = [sys.executable, os.path.join(ROOT, "run_check.py"), pid, "--tier", tier,
                "--shard", str(i), "--nshards", str(nshards), "--out", out]
         log = open(os.path.join(run_dir, "shard_%d.log" % i), "w")
-        procs.append((i, out, subprocess.Popen(cmd, env=env, stdout=log, stderr=subprocess.STDOUT, cwd=ROOT), log))
+        procs.append((i, out, subprocess.Popen(cmd, env=env, stdout=log, stderr=subprocess.STDOUT, cwd=ROOT, start_new_session=True), log))
     hard = (check.wall_budget(tier) if hasattr(check, "wall_budget") else (75.0 if tier == "quick" else 1200.0)) * 3 + 600
     shards = []
     errors = []
@@ -507,7 +507,10 @@ def parent_main(pid, tier, seed):
         try:
             p.wait(max(5.0, hard - (time.monotonic() - t0)))
         except subprocess.TimeoutExpired:
-            p.kill()
+            try:
+                os.killpg(p.pid, 9)  # the shard and its workers
+            except Exception:
+                p.kill()
             errors.append("shard %d exceeded the hard wall limit" % i)
         log.close()
         if os.path.exists(out):
